@@ -230,8 +230,8 @@ theorem rdFileA_encX (dformat : Bool) (d : Nat) (hd : 1 ≤ d) (hp : 1 ≤ perli
   | cons p t ih =>
     intro fuel hf hok
     obtain ⟨f, rfl⟩ : ∃ f, fuel = f + 1 := ⟨fuel - 1, by simp at hf; omega⟩
-    obtain ⟨hwf, hnb, hfit⟩ := hok p List.mem_cons_self
-    have hm := rdMatrixA_encX dformat d hd hp p.1 p.2 hwf hnb hfit (t.flatMap fun p => matLines d p.1 p.2)
+    obtain ⟨hwf, hnb⟩ := hok p List.mem_cons_self
+    have hm := rdMatrixA_encX dformat d hd hp p.1 p.2 hwf hnb (fun _ _ _ _ b _ => fits_all d b hd) (t.flatMap fun p => matLines d p.1 p.2)
     obtain ⟨ds, hds, hrel⟩ := ih f (by simp at hf ⊢; omega) (fun q hq => hok q (List.mem_cons_of_mem _ hq))
     refine ⟨{ rawName := nameStr p.2.name,
               rows := if p.1 = .bigmat then -(p.2.rows : Int) else (p.2.rows : Int),
